@@ -550,6 +550,7 @@ def run(ctx):
     # ------------------------------------------------------------ R10.3
     special_member_finders(ctx)
     override_matching(ctx)
+    signature_equivalence(ctx)
 
     # ------------------------------------------------------------ R10.2
     fd = db.fn("InterrogateBuilder::define_struct_type")
@@ -634,3 +635,87 @@ def run(ctx):
         ok = G.gated(gf, a, G.edges_where(gf, not_abstract_ctor))
         ctx.ob("R10.2", "get_function|no-constructor-of-abstract-class", ok, gf.loc(a),
                "add_function is reached only when the function is not a constructor, has no class, or the class is not abstract")
+
+
+def signature_equivalence(ctx):
+    """R10.6 / R10.7: whether a member overrides an inherited virtual (and hence whether the class is abstract, has a
+    usable constructor, is polymorphic) is decided by comparing parameter lists with is_equivalent().  In C++ the
+    parameter-type-list is compared after typedefs are resolved and top-level cv-qualifiers are dropped ([dcl.fct]/5):
+    `f(int)` overrides `f(MyInt)` and `f(const int)`.  (F-C10f, F-C10g.)"""
+    db = ctx.db
+    ctx.rule("R10.6", "CPPType::is_equivalent() - the version reached when the receiver is not a typedef - does not answer `different subtype` for an argument that is a typedef: that return is reachable only when other.get_subtype() != ST_typedef (or the receiver is itself a typedef)")
+    ctx.rule("R10.7", "CPPParameterList::is_equivalent() compares each pair of parameter types through locals from which every top-level CPPConstType has been peeled on BOTH sides")
+    f = db.fn("CPPType::is_equivalent")
+    other = f.params[0]
+
+    def subtype_is_typedef(node, of_other):
+        c = G.cmp_atom(node)
+        if not c:
+            return None
+        op, u, v = c
+        for p, q in ((u, v), (v, u)):
+            pp = strip_casts(peel(p)) if p is not None else None
+            qq = strip_casts(peel(q)) if q is not None else None
+            if pp is not None and pp.get("k") == "call" and callee_short(pp) == "get_subtype" and qq is not None and (qq.get("n") or "").endswith("ST_typedef"):
+                recv = strip_casts(peel(pp.get("this"))) if pp.get("this") is not None else None
+                is_other = recv is not None and (local_ref(recv) or {}).get("d") == other["d"]
+                if is_other == of_other:
+                    return op
+        return None
+
+    def holds(atom, truth):
+        # accepted facts: `other is not a typedef`, `this is a typedef`
+        op = subtype_is_typedef(atom, True)
+        if op is not None:
+            o = op if truth else G.NEG[op]
+            return o == "!="
+        op = subtype_is_typedef(atom, False)
+        if op is not None:
+            o = op if truth else G.NEG[op]
+            return o == "=="
+        return False
+    edges = G.edges_where(f, holds)
+    mism = []
+    for n in f.walk():
+        if n.get("k") == "if":
+            c = G.cmp_atom(peel(n["c"]))
+            if c and c[0] == "!=" and all((strip_casts(peel(z)) or {}).get("k") == "call" and callee_short(strip_casts(peel(z))) == "get_subtype" for z in c[1:]):
+                mism += [r for r in walk(n["then"]) if r.get("k") == "ret" and const_int(r.get("e")) == 0]
+    if not mism:
+        ctx.broken("R10.6: CPPType::is_equivalent no longer has a `subtypes differ -> false` return")
+    for i, r in enumerate(mism):
+        ok = bool(edges) and G.gated(f, r, edges)
+        ctx.ob("R10.6", "CPPType::is_equivalent|subtype-mismatch#%d|not-for-a-typedef-argument" % i, ok, f.loc(r),
+               "`different subtype` is %sanswered only when the argument is not a typedef" % ("" if ok else "NOT "))
+    # ---- R10.7
+    f = db.fn("CPPParameterList::is_equivalent")
+    calls = [c for c in f.walk() if c.get("k") == "call" and callee_short(c) == "is_equivalent" and "this" in c and c.get("a")]
+    if not calls:
+        ctx.broken("R10.7: CPPParameterList::is_equivalent compares no types")
+
+    def peeled(local):
+        if local is None:
+            return False
+        for lp in f.walk():
+            if lp.get("k") not in ("while", "for", "do"):
+                continue
+            cond = lp.get("c") or {}
+            test = any(y.get("k") == "call" and callee_short(y) == "as_const_type" and (local_ref(y.get("this")) or {}).get("d") == local["d"] for y in walk(cond))
+            ne = any((G.cmp_atom(y) or [None])[0] == "!=" for y in walk(cond) if y.get("k") == "bin") or not any(y.get("k") == "bin" for y in walk(cond))
+            step = False
+            for y in walk(lp.get("body") or {}):
+                t = assigned_target(y)
+                if t and (local_ref(t[0]) or {}).get("d") == local["d"] and any((z.get("n") or "").endswith("CPPConstType::_wrapped_around") for z in walk(t[1]) if z.get("k") == "mem"):
+                    step = True
+            if test and ne and step:
+                return True
+        return False
+    for i, c in enumerate(calls):
+        a = local_ref(strip_casts(peel(c["this"])))
+        arg = c["a"][0]
+        while arg is not None and arg.get("k") == "un" and arg.get("op") == "*":
+            arg = arg.get("e")
+        b = local_ref(strip_casts(peel(arg)))
+        ok = peeled(a) and peeled(b)
+        ctx.ob("R10.7", "CPPParameterList::is_equivalent|compare#%d|top-level-const-dropped-both-sides" % i, ok, f.loc(c),
+               "`%s` compares %s" % (show(c)[:60], "const-peeled locals on both sides" if ok else "a type as written (receiver peeled: %s, argument peeled: %s)" % (peeled(a), peeled(b))))
